@@ -441,11 +441,14 @@ pub struct GenOptions {
     pub long_line: u64,
     /// 0 = never, otherwise one case in `medium_line` gets a 1000–4000-byte FUNC or FILE name.
     pub medium_line: u64,
+    /// FUNC bodies as dump_syms writes them for big functions: INLINE records with 3..12 ranges, nesting
+    /// up to depth 6, up to 60 line records
+    pub dense: bool,
 }
 
 impl Default for GenOptions {
     fn default() -> Self {
-        GenOptions { max_symbols: 40, origin_in_func: false, line_gaps: false, dups: false, long_line: 0, medium_line: 0 }
+        GenOptions { max_symbols: 40, origin_in_func: false, line_gaps: false, dups: false, long_line: 0, medium_line: 0, dense: false }
     }
 }
 
@@ -537,7 +540,7 @@ fn pick_id(rng: &mut Rng, ids: &[u64]) -> u64 {
     }
 }
 
-fn gen_lines(rng: &mut Rng, addr: u64, size: u64, file_ids: &[u64], gaps: bool) -> Vec<Body> {
+fn gen_lines(rng: &mut Rng, addr: u64, size: u64, file_ids: &[u64], gaps: bool, dense: bool) -> Vec<Body> {
     // the first record may start after the function start; the last one ends at the function end
     let lead = if size > 1 && rng.chance(1, 4) { rng.range(1, (size - 1).min(8)) } else { 0 };
     let (lo, hi) = (addr + lead, addr + size);
@@ -545,7 +548,7 @@ fn gen_lines(rng: &mut Rng, addr: u64, size: u64, file_ids: &[u64], gaps: bool) 
     if avail == 0 || rng.chance(1, 6) {
         return Vec::new();
     }
-    let k = rng.range(1, avail.min(8));
+    let k = if dense { rng.range(avail.min(9), avail.min(60)) } else { rng.range(1, avail.min(8)) };
     let pieces = if gaps { (2 * k + 1).min(avail) } else { k };
     let mut bounds = vec![lo];
     if pieces > 1 {
@@ -572,12 +575,23 @@ fn gen_lines(rng: &mut Rng, addr: u64, size: u64, file_ids: &[u64], gaps: bool) 
 }
 
 /// INLINE records for the address range `lo..hi` at nesting level `depth` (and below).
-fn gen_inlines(rng: &mut Rng, depth: u64, lo: u64, hi: u64, file_ids: &[u64], origin_ids: &[u64], out: &mut Vec<Body>) {
-    if depth > 3 || hi <= lo {
+fn gen_inlines(rng: &mut Rng, depth: u64, lo: u64, hi: u64, file_ids: &[u64], origin_ids: &[u64], dense: bool, out: &mut Vec<Body>) {
+    if depth > if dense { 6 } else { 3 } || hi <= lo {
         return;
     }
     let span = hi - lo;
-    let ranges: Vec<(u64, u64)> = if span >= 3 && rng.chance(1, 3) {
+    let ranges: Vec<(u64, u64)> = if dense && span >= 8 && rng.chance(2, 3) {
+        // 3..12 ranges (some adjacent), as one record or split over several records of the same depth
+        let k = rng.range(3, 12.min(span / 2)) as usize;
+        let p = distinct_points(rng, lo, hi, 2 * k);
+        let mut r: Vec<(u64, u64)> = p.chunks(2).map(|c| (c[0], c[1])).collect();
+        for i in 1..r.len() {
+            if rng.chance(1, 4) {
+                r[i].0 = r[i - 1].1; // adjacent to the previous range
+            }
+        }
+        r
+    } else if span >= 3 && rng.chance(1, 3) {
         if rng.chance(1, 3) {
             let p = distinct_points(rng, lo, hi, 3); // two adjacent ranges
             vec![(p[0], p[1]), (p[1], p[2])]
@@ -596,7 +610,18 @@ fn gen_inlines(rng: &mut Rng, depth: u64, lo: u64, hi: u64, file_ids: &[u64], or
         origin: pick_id(rng, origin_ids),
         ranges: rs.iter().map(|(a, b)| (*a, b - a)).collect(),
     };
-    if ranges.len() == 2 && rng.chance(1, 2) {
+    if ranges.len() > 2 {
+        // text order of the ranges inside a record and of the records is not the address order
+        let mut rs = ranges.clone();
+        if rng.chance(1, 2) {
+            rng.shuffle(&mut rs);
+        }
+        let cut = if rng.chance(1, 2) { rs.len() } else { rng.range(1, rs.len() as u64 - 1) as usize };
+        out.push(rec(rng, rs[..cut].to_vec()));
+        if cut < rs.len() {
+            out.push(rec(rng, rs[cut..].to_vec()));
+        }
+    } else if ranges.len() == 2 && rng.chance(1, 2) {
         out.push(rec(rng, ranges.clone())); // one record with two ranges
     } else {
         for r in &ranges {
@@ -605,7 +630,7 @@ fn gen_inlines(rng: &mut Rng, depth: u64, lo: u64, hi: u64, file_ids: &[u64], or
     }
     for (a, b) in ranges {
         if rng.chance(1, 2) {
-            gen_inlines(rng, depth + 1, a, b, file_ids, origin_ids, out);
+            gen_inlines(rng, depth + 1, a, b, file_ids, origin_ids, dense, out);
         }
     }
 }
@@ -613,9 +638,9 @@ fn gen_inlines(rng: &mut Rng, depth: u64, lo: u64, hi: u64, file_ids: &[u64], or
 fn gen_func(rng: &mut Rng, addr: u64, size: u64, file_ids: &[u64], origin_ids: &[u64], o: &GenOptions) -> Record {
     let mut inl = Vec::new();
     if size > 0 && rng.chance(1, 2) {
-        gen_inlines(rng, 0, addr, addr + size, file_ids, origin_ids, &mut inl);
+        gen_inlines(rng, 0, addr, addr + size, file_ids, origin_ids, o.dense, &mut inl);
     }
-    let lines = if size > 0 { gen_lines(rng, addr, size, file_ids, o.line_gaps) } else { Vec::new() };
+    let lines = if size > 0 { gen_lines(rng, addr, size, file_ids, o.line_gaps, o.dense) } else { Vec::new() };
     // dump_syms writes the INLINE records first; sometimes interleave (keeping the line order)
     let mut body = Vec::new();
     if rng.chance(1, 4) {
@@ -691,7 +716,7 @@ impl SymFile {
             };
             let addr = cur + gap;
             if rng.chance(3, 5) {
-                let size = match rng.below(5) {
+                let size = match if o.dense { 4 } else { rng.below(5) } {
                     0 => 1,
                     1 => rng.range(2, 4),
                     2 | 3 => rng.range(5, 0x60),
